@@ -57,6 +57,21 @@ def text(rng, cp):
     return s
 
 
+def long_cases(tier):
+    """long summary streams: every value position relative to the container's 8 KiB stream buffer and 4,096-byte
+    mini-stream cutoff (a value that is read in two pieces must still be read whole): a long comment shifts the
+    properties that follow it (creating application, creation time, word count) byte by byte across the boundary"""
+    cases = []
+    for k, base in enumerate((8192, 4096, 16384)):
+        for delta in range(-160, -100, 1 if base == 8192 or tier == "thorough" else 4):
+            n = base + delta
+            cmds = ["(create %d)" % (k % 3), "(sum_set comments %s)" % X.enc_str("c" * n), "(sum_set ctime 1489862796123456700)",
+                    "(sum_set words 305419896)", "(sum_set app %s)" % X.enc_str("application name"), "(sum_get)",
+                    "(reopen %s)" % ["flush", "into_inner", "drop"][(k + delta) % 3], "(sum_get)"]
+            cases.append(Case("long-%d" % n, cmds, ("long",)))
+    return cases
+
+
 def gen_cases(rng, tier, info):
     cases = []
     n = 90 if tier == "quick" else 2500
@@ -102,6 +117,15 @@ def gen_cases(rng, tier, info):
                 cmds.append("(sum_set %s %s)" % (prop, X.enc_str(mark + "Jane " + prop)))
             cmds += ["(sum_get)", "(reopen %s)" % ["flush", "into_inner", "drop"][k % 3], "(raw)" if page in (65001, 20127) else "(x_raw)", "(sum_get)"]
             cases.append(Case("bom-%d-%d" % (page, k), cmds))
+    # strings containing U+0000 (at the end, alone, in the middle, at the start): the length field says where a value ends
+    for k, page in enumerate((65001, 1252, 932)):
+        cmds = ["(create %d)" % k, "(sum_set codepage %d)" % page]
+        vals = ["abc\x00", "\x00", "a\x00b", "\x00abc", "ab\x00\x00", "\x00\x00\x00\x00"]
+        for prop, v in zip(STR_PROPS * 2, vals):
+            cmds += ["(sum_set %s %s)" % (prop, X.enc_str(v)), "(sum_get)"]
+        cmds += ["(reopen %s)" % ["flush", "into_inner", "drop"][k], "(raw)" if page in (65001, 20127) else "(x_raw)", "(sum_get)"]
+        cases.append(Case("nul-%d" % page, cmds))
+    cases += long_cases(tier)
     # the known finding: an architecture text containing ';'
     cases.append(Case("arch-semicolon", ["(create 0)", "(sum_set langs (1033))", "(sum_set arch %s)" % X.enc_str("x;y"), "(sum_get)"], ("known",)))
     info.update({"histories": n, "histories_per_code_page": used})
